@@ -58,6 +58,7 @@ def run(ctx):
     for dtype in dtypes:
         run_dtype(ctx, dtype)
     run_patterns(ctx)
+    run_random_patterns(ctx)
     run_tensor_level(ctx)
 
 
@@ -319,6 +320,50 @@ def run_patterns(ctx):
                                      dict(semiring=name, op=op, x=dict(pattern=nx, vals=[repr(a) for a in vx], default=repr(dx)),
                                           y=dict(pattern=ny, vals=[repr(a) for a in vy], default=repr(dy))),
                                      repr(got), repr(want), tags=tags)
+
+
+def run_random_patterns(ctx):
+    """operands of the SAME shape but DIFFERENT sparsity patterns (typed generator of C06/C07): the semiring
+    operation on PatternedTensors is the elementwise operation on what they denote, whatever their defaults"""
+    from . import ptgen
+    dtype = torch.float64
+    cfgs = [
+        ('real', fggs.RealSemiring(dtype=dtype), [0.0, 0.5, 1.0, 3.0, 2.0, 0.25], [0.0, 0.0, 1.0, math.inf, 2.0]),
+        ('log', fggs.LogSemiring(dtype=dtype), [-math.inf, -1.0, 0.0, 2.0, -3.0, -0.5], [-math.inf, -math.inf, 0.0, 0.0, math.inf, -2.0]),
+        ('viterbi', fggs.ViterbiSemiring(dtype=dtype), [-math.inf, -1.0, 0.0, 2.0, -3.0, -0.5], [-math.inf, -math.inf, 0.0, 0.0, math.inf, -2.0]),
+        ('bool', fggs.BoolSemiring(), None, None),
+    ]
+    n = 150 if ctx.quick else 2500
+    for name, sr, vals, defaults in cfgs:
+        for it in range(n):
+            types = [ptgen.random_type(ctx.rng, depth=2) for _ in range(ctx.rng.randint(1, 3))]
+            kw = dict(bool_=True) if name == 'bool' else dict(values=vals, defaults=defaults, specials=0.1)
+            x = ptgen.random_pt(ctx.rng, types, p_dense=0.2, max_phys=200, **kw)
+            y = ptgen.random_pt(ctx.rng, types, p_dense=0.2, max_phys=200, **kw)
+            if x.numel() > 4000:
+                continue
+            for op in ('add', 'mul', 'sub'):
+                xd, yd = x.to_dense(), y.to_dense()
+                want = getattr(sr, op)(xd.clone(), yd.clone())
+                try:
+                    got = getattr(sr, op)(x, y).to_dense()
+                except Exception as e:  # noqa
+                    got = e
+                desc = dict(semiring=name, op=op, x=ptgen.enc_pt(x), y=ptgen.enc_pt(y))
+                differ = repr(x.vaxes) != repr(y.vaxes)
+                ctx.case(f'{name}.{op} random patterns', (name, op, desc['x'], desc['y']) if differ else None, sample_every=503)
+                ctx.count(f'rpattern.{name}.{op}')
+                ok = isinstance(got, torch.Tensor) and got.shape == want.shape and \
+                    bool(((got == want) | ((got != got) & (want != want))).all())
+                if not ok:
+                    tags = ['patterned', name, op]
+                    if isinstance(got, torch.Tensor) and got.shape == want.shape and bool(((got < -1e300) & (want == -math.inf)).any()):
+                        tags.append('neginf-becomes-finite')
+                    ctx.fail(f'{name}.{op} on PatternedTensors of different patterns differs from the Tensor result', desc,
+                             repr(got), repr(want), tags=tags)
+                # the operands are not modified (C18 overlaps)
+                if not (ptgen.same_dense(x.to_dense(), xd) and ptgen.same_dense(y.to_dense(), yd)):
+                    ctx.fail(f'{name}.{op} on PatternedTensors modified an operand', desc, None, None, tags=['patterned', 'mutates'])
 
 
 def run_tensor_level(ctx):
